@@ -8,7 +8,7 @@
     for the `τ` statistics (used for "PANOC with NoopDirection is the proximal-gradient method").
 -/
 import Alpaqa.Props.C09
-import Alpaqa.Proofs.PanocDescent
+import Alpaqa.Proofs.PanocSized
 import Alpaqa.Model.DirectionsPanoc
 import Mathlib.Tactic.FieldSimp
 import Mathlib.Tactic.NormNum
@@ -85,6 +85,129 @@ theorem setJ_hit (J : List Nat) (f : Nat → α) (q : Vec α) (hnd : J.Nodup)
 
 end
 end Alpaqa.Directions
+
+/-! ### sizes along the operations of the L-BFGS buffer (no curvature assumption) -/
+
+namespace Alpaqa.C09
+open Alpaqa Alpaqa.Props.C09
+set_option linter.unusedSectionVars false
+
+section sized
+variable {α : Type} [Field α] [LinearOrder α] [IsStrictOrderedRing α]
+  [RealLike α] [PowLike α] [HasNaN α]
+
+/-- What the buffer inside a provider satisfies after `resize n` and any sequence of `n`-sized
+    operations — with or without zero-curvature pairs: ring invariant, consistent `ρ`, every stored
+    vector of size `n`. -/
+def SizedSt (p : Params α) (n : Nat) (st : State α) : Prop := Good p st ∧ DimOK st ∧ st.n = n
+
+/-- the vector arguments of an operation have size `n` (a `resize` is to `n`) -/
+def OpDim (n : Nat) : Op α → Prop
+  | .updateSy s y _ _ => s.length = n ∧ y.length = n
+  | .update xk xn pk pn _ _ => xk.length = n ∧ xn.length = n ∧ pk.length = n ∧ pn.length = n
+  | .resize k => k = n
+  | _ => True
+
+theorem resize_sizedSt (p : Params α) (n : Nat) (st : State α) (h : resize p n = some st) :
+    SizedSt p n st := by
+  obtain ⟨hG, _, hn⟩ := resize_goodC p n st h
+  exact ⟨hG.1, hG.2.2, hn⟩
+
+theorem step_sizedSt (p : Params α) (hm : 1 ≤ p.memory) (n : Nat) (st : State α)
+    (h : SizedSt p n st) (op : Op α) (hop : OpDim n op) : SizedSt p n (step p st op) := by
+  obtain ⟨hG, hd, hn⟩ := h
+  have hgood := (step_refines p hm st hG op).1
+  cases op with
+  | updateSy s y pTp forced =>
+    refine ⟨hgood, ?_, by simp only [step, updateSy_n]; exact hn⟩
+    simp only [step]
+    unfold DimOK; rw [updateSy_n]
+    exact allPairs_updateSy _ p st hG.1 s y pTp forced hd (fun _ => by rw [hn]; exact hop)
+  | update xk xn pk pn pos forced =>
+    obtain ⟨h1, h2, h3, h4⟩ := hop
+    refine ⟨hgood, ?_, by simp only [step, update_eq_updateSy, updateSy_n]; exact hn⟩
+    simp only [step, update_eq_updateSy]
+    unfold DimOK; rw [updateSy_n]
+    refine allPairs_updateSy _ p st hG.1 _ _ _ forced hd (fun _ => ⟨?_, ?_⟩)
+    · rw [hn]; exact length_vsub_eq _ _ n h2 h1
+    · rw [hn]; cases pos
+      · exact length_vsub_eq _ _ n h3 h4
+      · exact length_vsub_eq _ _ n h4 h3
+  | apply q γ =>
+    refine ⟨hgood, ?_, by simp only [step, apply_n]; exact hn⟩
+    simp only [step]; unfold DimOK; rw [apply_n]; exact allPairs_apply _ p st q γ hd
+  | applyMasked q γ J =>
+    refine ⟨hgood, ?_, by simp only [step, applyMasked_n]; exact hn⟩
+    simp only [step]; unfold DimOK; rw [applyMasked_n]; exact allPairs_applyMasked _ p st q γ J hd
+  | reset => exact ⟨hgood, allPairs_reset _ st, hn⟩
+  | resize k =>
+    have hk : k = n := hop
+    subst hk
+    obtain ⟨st', h1, _⟩ := (resize_spec p k).2 hm
+    simp only [step, h1, Option.getD_some]
+    exact resize_sizedSt p k st' h1
+  | scaleY f =>
+    refine ⟨hgood, ?_, hn⟩
+    simp only [step]; unfold DimOK; rw [scaleY_n]
+    exact allPairs_scaleY _ st hG.1 f hd (fun c hc => ⟨hc.1, by rw [length_smul]; exact hc.2⟩)
+
+theorem run_sizedSt (p : Params α) (hm : 1 ≤ p.memory) (n : Nat) (ops : List (Op α)) (st : State α)
+    (h : SizedSt p n st) (hops : ∀ op ∈ ops, OpDim n op) : SizedSt p n (ops.foldl (step p) st) := by
+  induction ops generalizing st with
+  | nil => exact h
+  | cons op ops ih =>
+    exact ih _ (step_sizedSt p hm n st h op (hops op (List.mem_cons_self)))
+      (fun o ho => hops o (List.mem_cons_of_mem _ ho))
+
+/-- `apply` on a sized buffer with an `n`-sized vector leaves an `n`-sized vector (whether it
+    succeeds or not, whatever the curvatures). -/
+theorem apply_length (p : Params α) (n : Nat) (st : State α) (h : SizedSt p n st) (q : Vec α)
+    (hq : q.length = n) (γ : α) : (apply p st q γ).2.1.length = n := by
+  obtain ⟨⟨hI, _, hρ⟩, hd, hn⟩ := h
+  rcases Bool.eq_false_or_eq_true st.isEmpty with he | he
+  · rw [apply_empty p st q γ he]; exact hq
+  · rw [(apply_eq_dense p st hI hρ q γ he).1]
+    exact H_length _ _ (hn ▸ (dimOK_abs st).mp hd) q hq
+
+/-! the masked variant writes only the entries of `J` (when `J` is not the full index set) -/
+
+theorem maskedRevStep_q_length (p : Params α) (J : List Nat) (slots : List (Slot α)) (a : MaskAcc α)
+    (i : Nat) : (maskedRevStep p false J slots a i).q.length = a.q.length := by
+  unfold maskedRevStep
+  simp only []
+  split_ifs <;> first | rfl | exact axmyJ_length _ _ _ _
+
+theorem mrev_q_length (p : Params α) (J : List Nat) (slots : List (Slot α)) (is : List Nat)
+    (a : MaskAcc α) : (is.foldl (maskedRevStep p false J slots) a).q.length = a.q.length := by
+  induction is generalizing a with
+  | nil => rfl
+  | cons i is ih => rw [List.foldl_cons, ih, maskedRevStep_q_length]
+
+theorem mfwd_length (J : List Nat) (slots : List (Slot α)) (al : List α) (skip : List Bool)
+    (is : List Nat) (q : Vec α) :
+    (is.foldl (maskedFwdStep false J slots al skip) q).length = q.length := by
+  induction is generalizing q with
+  | nil => rfl
+  | cons i is ih =>
+    rw [List.foldl_cons, ih]
+    unfold maskedFwdStep
+    simp only []
+    split_ifs
+    · rfl
+    · exact axmyJ_length _ _ _ _
+
+theorem applyMasked_length (p : Params α) (st : State α) (q : Vec α) (γ : α) (J : List Nat)
+    (hf : (q.length == J.length) = false) (st' : State α) (q' : Vec α) (ok : Bool)
+    (h : applyMasked p st q γ J = .done st' q' ok) : q'.length = q.length := by
+  unfold applyMasked at h
+  simp only [hf] at h
+  split_ifs at h <;> cases h <;> first
+    | rfl
+    | exact mrev_q_length _ _ _ _ _
+    | (rw [mfwd_length, scalJ_length, mrev_q_length])
+
+end sized
+end Alpaqa.C09
 
 namespace Alpaqa.Panoc
 open Alpaqa Alpaqa.Gen
